@@ -58,7 +58,7 @@ CLAIMS = {
                 tech='Kani proof harnesses on K-snippets (FormalArgs::eval and CallArgs method bodies extracted each run, instantiated at a cheap value type)',
                 ref='DESIGN.md §11'),
     'C22': dict(cat='other',
-                text='Opt::collect_pos / collect_neg — the fold every no_placeholder uses, including the :not inversion — are verified by Verus against the C22 statement for sequences of ANY length (unbounded, bodies extracted from /repo each run; listed rewrite: the `impl Iterator` parameter is a Vec), and together with Opt::map by Kani for sequences of at most 4 items (bounded); CompoundSelector::no_placeholder (a compound with a placeholder is removed, one without is kept unchanged) and Pseudo::no_placeholder on a pseudo-class without selector argument: bounded model checking of the real code. The recursive cases (placeholder in an ancestor, in a selector list, inside :is() / :not() / ::slotted()) exist as harnesses on the real Selector / SelectorSet / Pseudo::no_placeholder but exceed 15 minutes and 5 GB each: thorough-tier attempts, never counted.',
+                text='Opt::collect_pos / collect_neg — the fold every no_placeholder uses, including the :not inversion — are verified by Verus against the C22 statement for sequences of ANY length (unbounded, bodies extracted from /repo each run; listed rewrite: the `impl Iterator` parameter is a Vec), Opt::map against the closure's own specification, and all three again by Kani for sequences of at most 4 items (bounded); CompoundSelector::no_placeholder (a compound with a placeholder is removed, one without is kept unchanged) and Pseudo::no_placeholder on a pseudo-class without selector argument: bounded model checking of the real code. The recursive cases (placeholder in an ancestor, in a selector list, inside :is() / :not() / ::slotted()) exist as harnesses on the real Selector / SelectorSet / Pseudo::no_placeholder but exceed 15 minutes and 5 GB each: thorough-tier attempts, never counted.',
                 note='Added at the end of session 3: the complete bodies of SelectorSet / Selector / CompoundSelector / Pseudo ::no_placeholder, extracted unchanged, each checked against a stand-in for the type one level down that returns every Opt case (removed / matches anything / kept, transformed) — order kept, :not and only :not inverts, every pseudo name with a selector argument counts, pseudo-elements included (bounded: three selectors / two pseudos per level). The induction composing the levels on real nested selectors is not machine-checked; on the real recursive types the harnesses are attempts. How Rule::write uses the result (the `*` fallback) and the selector parser/printer are not covered. Bounded: nothing counted as proved.',
                 tech='Kani bounded proof harnesses on the real fold; the four no_placeholder bodies extracted each run and checked level by level against stand-in callees',
                 ref='DESIGN.md §5 C22, §11'),
